@@ -233,4 +233,19 @@ def h_write_read_verbatim(k: int, v: int) -> bool:
 
 
 def replay_h_write_read_verbatim(k, v):
-    return None, "no concrete driver"
+    import os, shutil, tempfile
+    import pandas as pd
+    import fastparquet
+    key, val = KEYS[k], VALS[v]
+    d = tempfile.mkdtemp(prefix="c16-")
+    try:
+        fn = os.path.join(d, "t.parq")
+        fastparquet.write(fn, pd.DataFrame({"a": [1]}), custom_metadata={key: val})
+        kv = fastparquet.ParquetFile(fn).key_value_metadata
+        wk = key if isinstance(key, str) else key.decode()
+        wv = val if isinstance(val, str) else val.decode()
+        if kv.get(wk) != wv:
+            return True, "custom_metadata {%r: %r} reads back as %r" % (key, val, kv.get(wk))
+        return False, "verbatim"
+    finally:
+        shutil.rmtree(d, ignore_errors=True)
